@@ -42,7 +42,9 @@ CFG = {
     "rule": (
         "one case = one history (wrapper: 20-100 ops; inner tree: 25-150 ops per degree; sweep = all four / all ten scans from "
         "every pivot position of one tree; clone program: up to 4 handles, 25-75 steps with snapshots of all handles; concurrent: "
-        "2-4 goroutines on disjoint key classes of one wrapper) generated from its own seed; non-trivial = at least 4 steps; "
+        "2-4 goroutines on disjoint key classes of one wrapper; targeted: every limit 0..len+1 of the four wrapper scans and every stop "
+        "count of the ten entry points on trees of >= 3 levels, every present key stored again, Clone taken exactly when the root "
+        "is full, as a leaf and as an inner root, followed by a write on either side) generated from its own seed; non-trivial = at least 4 steps; "
         "distinct = distinct Coq term (ops + observed results + observed shapes)"
     ),
     "trusted": [
